@@ -35,7 +35,7 @@ pub fn hello_of(kind: &str) -> Option<HelloMessage> {
 
 /// bytes of the frames of a `sock` op (`hel.valid`, `ack`, `ch.<ty>.<c:s:r>.<F|C|A>.<size>.<rk>.<mal>`);
 /// the flag says whether the client waits for an answer after the frame
-fn sock_frames(specs: &str) -> Option<Vec<(Vec<u8>, bool)>> {
+fn sock_frames(specs: &str) -> Option<Vec<(Vec<u8>, bool, bool)>> {
     let l = srv_conn::lens();
     let mut out = Vec::new();
     // the body stream of the pending message, as `srv_conn::Conn` lays it out (pending is empty at
@@ -49,13 +49,13 @@ fn sock_frames(specs: &str) -> Option<Vec<(Vec<u8>, bool)>> {
                 h.message_header.message_size = h.byte_len() as u32;
                 let mut c = std::io::Cursor::new(Vec::new());
                 h.encode(&mut c).ok()?;
-                out.push((c.into_inner(), true));
+                out.push((c.into_inner(), true, false));
             }
             ["ack"] => {
                 let e = opcua::core::comms::tcp_types::ErrorMessage::from_status_code(StatusCode::BadCommunicationError);
                 let mut c = std::io::Cursor::new(Vec::new());
                 e.encode(&mut c).ok()?;
-                out.push((c.into_inner(), true));
+                out.push((c.into_inner(), true, false));
             }
             ["ch", ty, ci, f, n, rk, mal] => {
                 let c = c12::parse_ci(ci)??;
@@ -74,7 +74,7 @@ fn sock_frames(specs: &str) -> Option<Vec<(Vec<u8>, bool)>> {
                 off += blen;
                 empty = fin != MessageIsFinalType::Intermediate;
                 let chunk = srv_conn::build_chunk(&l, ty, c, fin, size, &body, mal)?;
-                out.push((chunk.data, fin == MessageIsFinalType::Final));
+                out.push((chunk.data, fin == MessageIsFinalType::Final, *ty == "opn"));
             }
             _ => return None,
         }
@@ -85,7 +85,7 @@ fn sock_frames(specs: &str) -> Option<Vec<(Vec<u8>, bool)>> {
 /// The REAL connection: `TcpTransport::run` on one end of a loopback socket, the frames written to
 /// the other end one at a time; after each frame that can be answered the client waits for one
 /// response frame or for the server to close the connection.
-async fn sock_run(frames: Vec<(Vec<u8>, bool)>, mc: usize, mm: usize) -> Vec<String> {
+async fn sock_run(frames: Vec<(Vec<u8>, bool, bool)>, mc: usize, mm: usize) -> Vec<String> {
     let listener = tokio::net::TcpListener::bind("127.0.0.1:0").await.expect("bind");
     let addr = listener.local_addr().unwrap();
     let mut client = tokio::net::TcpStream::connect(addr).await.expect("connect");
@@ -106,7 +106,7 @@ async fn sock_run(frames: Vec<(Vec<u8>, bool)>, mc: usize, mm: usize) -> Vec<Str
     let mut buf = BytesMut::new();
     let mut outs = Vec::new();
     let mut eof = false;
-    for (f, wait) in frames {
+    for (f, wait, is_opn) in frames {
         if !wait {
             // a chunk that is not final: nothing comes back, do not wait
             if !eof && client.write_all(&f).await.is_err() {
@@ -129,7 +129,7 @@ async fn sock_run(frames: Vec<(Vec<u8>, bool)>, mc: usize, mm: usize) -> Vec<Str
                 Ok(Some(Message::Chunk(c))) => {
                     let req = c.chunk_info(&sc).map(|i| i.sequence_header.request_id).unwrap_or(0);
                     match Chunker::decode(&[c], &sc, None) {
-                        Ok(m) => outs.push(format!("{} req={}", srv_conn::response_name(&m), req)),
+                        Ok(m) => outs.push(format!("{} req={}", srv_conn::response_name_for(&m, is_opn), req)),
                         Err(_) => outs.push("undecodable".to_string()),
                     }
                     break;
